@@ -348,10 +348,12 @@ impl DatagramSource {
         };
 
         let mut buffer = BytesMut::zeroed(net_utils::MAX_UDP_PAYLOAD_SIZE);
-        let (n, peer) = socket
-            .recv_from(buffer.as_mut())
-            .await
-            .map_err(socks_to_io_error)?;
+        // readiness may be stale (tokio keeps it until a read would block): do not wait here,
+        // the other associations have to be served meanwhile
+        let (n, peer) = match futures::FutureExt::now_or_never(socket.recv_from(buffer.as_mut())) {
+            None => return Ok(None),
+            Some(x) => x.map_err(socks_to_io_error)?,
+        };
         buffer.truncate(n);
 
         Ok(Some(forwarder::UdpDatagramReadStatus::Read(
